@@ -32,6 +32,48 @@ TU = "function.py::Function.task_unique_factory.task_unique"
 KEY_HELPERS = {"cls.unique_name_key", "Function.unique_name_key"}  # helper(s) that qualify a name with its context: followed, not assumed
 
 
+def legacy_claim_rule(ctx, program, rid):
+    """TrigInfo.call_action interpreted up to the claim inside do_func_call, for @task_unique('n', kill_me=True / False)."""
+    uid = "trigger.py::TrigInfo.call_action"
+    for kill_me in (True, False):
+        claims = []
+
+        def claimer(i, n, a, k, c, o, claims=claims):
+            claims.append((tuple(a), dict(k)))
+            return [(c, NONE)]
+
+        pol = FlowPolicy(program, may_raise_all=False, cancel=False, inline={"do_func_call"},
+                         summaries={"AstEval": lambda i, n, a, k, c, o: [(c, ObjV("run_eval", "AstEval"))], "Function.install_ast_funcs": lambda i, n, a, k, c, o: [(c, NONE)],
+                                    "Function.task_unique_factory": lambda i, n, a, k, c, o: [(c, FuncLike)], "task_unique_func": claimer,
+                                    "Function.unique_name_used": lambda i, n, a, k, c, o: [(c, Const(False))],  # both same-instant triggers pass the pre-check
+                                    "Context": lambda i, n, a, k, c, o: [(c, ObjV("hctx", "Context"))], "Function.hass.bus.async_fire": lambda i, n, a, k, c, o: [(c, NONE)],
+                                    "Function.store_hass_context": lambda i, n, a, k, c, o: [(c, NONE)], "Function.create_task": lambda i, n, a, k, c, o: [(c, ObjV("task", "Task"))],
+                                    "Function.task_done_callback_ctx": lambda i, n, a, k, c, o: [(c, NONE)], "ast_ctx.call_func": lambda i, n, a, k, c, o: [(c, NONE)]})
+        heap = {"self.task_unique": Const("n"), "self.task_unique_kwargs": DictV([(Const("kill_me"), Const(kill_me))]), "self.action": ObjV("act", "EvalFunc"), "self.name": Const("file.x.f"),
+                "act.global_ctx_name": Const("file.x"), "act.name": Const("f"), "act.global_ctx": ObjV("g", "GlobalContext")}
+        out = run_flow(program, uid, pol, args={"self": ObjV("self", "TrigInfo"), "notify_type": Const("state"), "func_args": DictV([(Const("trigger_type"), Const("state"))]),
+                                                  "run_task": Const(True)}, heap=heap)
+        ex = exits(out)
+        bad = None
+        if not ex or any(k != "return" for k, c, d in ex):
+            bad = f"exits {[d for k, c, d in ex]}"
+        elif len(claims) != 1:
+            bad = f"{len(claims)} claim(s) inside the new run"
+        else:
+            a, kw = claims[0]
+            passed = kw.get("kill_me", a[1] if len(a) > 1 else Const(False))
+            if a[:1] != (Const("n"),):
+                bad = f"the run claims {a[:1]!r} instead of the decorator's name"
+            elif passed != Const(kill_me):
+                bad = (f"the run claims the name with kill_me={passed!r} although the decorator says kill_me={kill_me}: of two runs started at the same instant the later one takes the "
+                       f"name and cancels the earlier, already running one")
+        ctx.check(bad is None, rid, uid, f"legacy claim applies kill_me={kill_me}", msg=f"legacy call_action with @task_unique('n', kill_me={kill_me}): {bad}", key=f"legacy claim kill_me={kill_me}",
+                  node=program.func(uid), rel="trigger.py")
+
+
+FuncLike = Sym(("callable", "task_unique_func"))
+
+
 def key_agreement_rule(ctx, program, rid):
     """After task.unique('n') in a context: unique_name_used(ctx, 'n') is True, name2id('n') is the task, name2id() is {'n': task} (and 'other' is unknown)."""
     gctx = ObjV("gctx", "AstEval")
@@ -254,6 +296,9 @@ def run(ctx):
     ctx.check(bool(a_used) and bool(a_fact) and set(a_used) == set(a_fact) and (not a_eval or set(a_used) <= set(a_eval) | set(a_used)), "R13.8", "trigger.py::TrigInfo.call_action",
               "legacy: pre-check and claim use the same evaluator", msg=f"legacy call_action: pre-check on {a_used}, claim on {a_fact}", key="legacy unique pre-check/claim evaluator", node=ca, rel="trigger.py")
 
+    ctx.rule("R13.13", "legacy @task_unique(kill_me=True): the claim made inside the new run applies the kill_me rule itself (two triggers firing at the same instant both pass "
+             "the earlier pre-check; the second run must then be the one that ends, before its body starts - not the first)", floor=2)
+    legacy_claim_rule(ctx, program, "R13.13")
     ctx.rule("R13.12", "unique names of different global contexts never meet: context names nest ('scripts.a' / 'scripts.a.b') and a name may contain dots, so the qualified key "
              "must still tell ('scripts.a', 'b.lock') from ('scripts.a.b', 'lock') - in the in-use test, in the claim and in task.name2id()", floor=3)
     context_isolation_rule(ctx, program, "R13.12")
